@@ -477,6 +477,14 @@ func (p *Prog) GeneratedBody() *ssa.Function {
 			switch x := src.(type) {
 			case *ssa.MakeClosure:
 				body, _ = x.Fn.(*ssa.Function)
+				// a bound method value (`impl.call`): the method itself
+				if body != nil && body.Synthetic != "" {
+					for _, ci := range Calls(body) {
+						if cal := ci.Common().StaticCallee(); cal != nil && p.InTarget(cal) {
+							body = cal
+						}
+					}
+				}
 				n++
 			case *ssa.Function:
 				body = x
@@ -488,4 +496,39 @@ func (p *Prog) GeneratedBody() *ssa.Function {
 		return nil
 	}
 	return body
+}
+
+// ConstructedField resolves a load of a struct field that is assigned exactly once in the whole program, in the
+// composite literal that creates the object (an immutable-after-construction field of an unexported type), to the
+// value stored there — read through Bind, so that a constructor's parameter becomes its caller's argument. Any
+// other value is returned unchanged.
+func (p *Prog) ConstructedField(v ssa.Value) ssa.Value {
+	fr, ok := AsFieldLoad(v)
+	if !ok || fr.Owner == "" {
+		return v
+	}
+	var stored ssa.Value
+	n := 0
+	for _, f := range p.Funcs {
+		Instrs(f, func(in ssa.Instruction) {
+			st, ok := in.(*ssa.Store)
+			if !ok {
+				return
+			}
+			sf, ok := AsFieldAddr(st.Addr)
+			if !ok || sf.Owner != fr.Owner || sf.Field != fr.Field {
+				return
+			}
+			n++
+			if p.FreshIn(st.Addr) {
+				stored = st.Val
+			} else {
+				n += 100 // assigned after construction somewhere: not resolvable
+			}
+		})
+	}
+	if n != 1 || stored == nil {
+		return v
+	}
+	return p.Bind(Strip(stored))
 }
